@@ -89,6 +89,21 @@ type Fault struct {
 	Err  string `json:"err,omitempty"` // error: internal|conflict|timeout|unavailable ; mute: closed|errorevent
 }
 
+// Rule is a persistent fault: every call that matches fails (or, for watches, is muted) - the model of a
+// failure cause that does not go away between attempts (a node that rejects bindings, a reservation pod
+// that never reports, ...). Empty fields match everything.
+type Rule struct {
+	Verb string `json:"verb,omitempty"`
+	Kind string `json:"kind,omitempty"`
+	Sub  string `json:"sub,omitempty"`
+	Mode string `json:"mode"` // error | mute
+	Err  string `json:"err,omitempty"`
+}
+
+func (r Rule) matches(verb, kind, sub string) bool {
+	return (r.Verb == "" || r.Verb == verb) && (r.Kind == "" || r.Kind == kind) && (r.Sub == "" || r.Sub == sub)
+}
+
 // Call is one numbered client call.
 type Call struct {
 	Seq      int    `json:"seq"` // global order
@@ -153,6 +168,7 @@ type Sim struct {
 
 	CDI         bool
 	IndexPolicy string // "lowest" | "rotating"
+	Rules       []Rule // persistent faults (apply to counted operations of every actor)
 
 	mu       sync.Mutex
 	seq      int
@@ -380,6 +396,25 @@ func (s *Sim) pre(verb, kind, key, sub string, mut bool) (idx int, muted string,
 						muted = "closed"
 					}
 				}
+			}
+		}
+		if c.Injected == "" && s.counting {
+			for _, r := range s.Rules {
+				if !r.matches(verb, kind, sub) {
+					continue
+				}
+				if r.Mode == "mute" && verb == "watch" {
+					c.Injected = "mute"
+					muted = r.Err
+					if muted == "" {
+						muted = "closed"
+					}
+				} else if r.Mode == "error" {
+					c.Injected = "error"
+					err = injectedError(r.Err, kind, key)
+					c.Err = err.Error()
+				}
+				break
 			}
 		}
 	}
